@@ -56,8 +56,19 @@ def shard_vec(v, mi, M):
     return v[mi * n:(mi + 1) * n]
 
 
+def divisible(specs, M):
+    """column-parallel layers shard the output features, row-parallel layers the input features"""
+    return all((s[2] if s[0] == 'col' else s[1]) % M == 0 for s in specs)
+
+
+def layer_name(pi, li, nlayers):
+    """qualified names are global to the pipeline: stage pi holds layers pi*L .. pi*L+L-1"""
+    return str(pi * nlayers + li)
+
+
 def build_rank(specs, r, D, M, P=1):
-    """-> (PipelineModule, [modules]) for this rank's stage (all layers live on every stage here)"""
+    """-> (PipelineModule, [modules]) for this rank's stage (every stage holds its own copy of the
+    layer list, under stage-specific names)"""
     from deepspeed.pipe import PipelineModule
     from deepspeed.runtime.pipe.topology import PipeModelDataParallelTopology
     mods = []
@@ -67,7 +78,10 @@ def build_rank(specs, r, D, M, P=1):
         else:
             mods.append(RowParallelLinear(nin // M, nout, bias=bias))
     topo = PipeModelDataParallelTopology(num_pp=P, num_mp=M, num_dp=D)
-    model = PipelineModule(layers=mods, num_stages=P, topology=topo)
+    model = PipelineModule(layers=[], num_stages=P, topology=topo)
+    pi = r // (D * M)
+    for li, mod in enumerate(mods):
+        model.add_module(layer_name(pi, li, len(mods)), mod)
     return model, mods, topo
 
 
